@@ -99,15 +99,25 @@ def run(ck: vlib.Check):
     for f in findings:
         if f["key"] == "two-switches-one-index":
             outs = {json.dumps(one(0, h, h, script=F18), sort_keys=True) for h in range(8)}
-            outs_bare = {json.dumps(one(1, h, h, script=F18), sort_keys=True) for h in range(12)}
-            ck.extra["two_switches_one_index_witnesses"] = {"two authored names": sorted(outs), "bare index reference to a named switch": sorted(outs_bare)}
-            if len(outs) > 1 or len(outs_bare) > 1:
+            ck.extra["two_switches_one_index_witnesses"] = {"two authored names": sorted(outs)}
+            if len(outs) > 1:
                 ck.known(f"key={f['key']} {f['text']}")
+    # (fixed in 8d40d98, checked whether or not anything is recorded) a bare-number reference to a switch the map names
+    outs_bare = {json.dumps(one(1, h, h, script=F18), sort_keys=True) for h in range(12)}
+    ck.evaluations += 12
+    if len(outs_bare) > 1:
+        ck.violation("a new trigger refers to an existing named switch by number only: the name the saved map gives that switch "
+                     f"depends on PYTHONHASHSEED: {sorted(outs_bare)}",
+                     {"kind": "bare-switch-reference", "outcomes": sorted(outs_bare)}, True)
 
 
 def replay(path: str) -> int:
     rp = json.loads(Path(path).read_text())
     print("replaying:", rp.get("what"))
+    if rp.get("kind") == "bare-switch-reference":
+        outs_bare = {json.dumps(one(1, h, h, script=F18), sort_keys=True) for h in range(12)}
+        print("still differs: " + str(sorted(outs_bare)) if len(outs_bare) > 1 else "no longer differs")
+        return 1 if len(outs_bare) > 1 else 0
     if rp.get("kind") == "order":
         a, b = one(*rp["run_a"], full=True), one(*rp["run_b"], full=True)
         d = diff_canon(a.get("canon"), b.get("canon")) if "canon" in a and "canon" in b else (a.get("raised") != b.get("raised"))
